@@ -1301,6 +1301,11 @@ class TransformSet:
             self.transform_for(caps)
 
     def _register(self, captures, fn):
+        if captures is not None:
+            # Only the code of the transformed helper is used (it is swapped
+            # into the original function): an absolute reference must never
+            # resolve to the helper itself.
+            fn.__ptera_discard__ = True
         self.transforms[captures] = (
             fn,
             fn.__code__,
